@@ -486,6 +486,9 @@ void register_all() {
   reg_nik<ElemUptr, 4, 3>();
   reg_nik<ElemRaw, 8, 0>();
   reg_nik<ElemUptr, 2, 0>();
+  reg_nik<ElemTok, 1, 1>();
+  reg_nik<ElemUptr, 1, 0>();
+  reg_nik<ElemInt, 2, 3>();
   #if XV_RECL != 0 && XV_RECL != 10
   reg_kir<ElemRaw>(1);
   reg_kir<ElemRaw>(2);
